@@ -17,11 +17,24 @@ use crate::{
 pub const N_KEYS: usize = 4;
 
 /// Deterministic Ed25519 key pairs: PKCS#8 v1 documents built from fixed seeds.
+pub fn key_seed(idx: usize) -> [u8; 32] {
+    let mut seed = [0u8; 32];
+    for i in 0..32u8 {
+        seed[i as usize] = i.wrapping_mul(7).wrapping_add(idx as u8 * 31 + 1);
+    }
+    seed
+}
+
+fn hex(b: &[u8]) -> String {
+    if b.is_empty() {
+        return "-".to_owned();
+    }
+    b.iter().map(|x| format!("{x:02x}")).collect()
+}
+
 pub fn keypair(idx: usize, version: &str) -> Ed25519KeyPair {
     let mut der = vec![0x30, 0x2e, 0x02, 0x01, 0x00, 0x30, 0x05, 0x06, 0x03, 0x2b, 0x65, 0x70, 0x04, 0x22, 0x04, 0x20];
-    for i in 0..32u8 {
-        der.push(i.wrapping_mul(7).wrapping_add(idx as u8 * 31 + 1));
-    }
+    der.extend_from_slice(&key_seed(idx));
     Ed25519KeyPair::from_der(&der, version.to_owned()).unwrap()
 }
 
@@ -38,6 +51,11 @@ impl KeyPair for Recording<'_> {
         self.log.borrow_mut().push((self.idx, message.to_vec(), s.as_bytes().to_vec()));
         s
     }
+}
+
+thread_local! {
+    /// (seed, message, signature, public key) lines for the independent RFC 8032 oracle.
+    static ORACLE: RefCell<Vec<String>> = const { RefCell::new(vec![]) };
 }
 
 const ENTITIES: &[&str] = &["a.example", "b.example", "c.example:8448", "[::1]", ""];
@@ -69,6 +87,14 @@ fn run_sign(obj: &CanonicalJsonObject, steps: &[Step]) -> (Sx, Vec<(usize, Vec<u
 
 fn sign_case(obj: &CanonicalJsonObject, steps: &[Step]) -> (Sx, Sx) {
     let (out, log) = run_sign(obj, steps);
+    ORACLE.with(|o| {
+        let mut o = o.borrow_mut();
+        if o.len() < 400 {
+            for (k, m, s) in &log {
+                o.push(format!("{} {} {} {}", hex(&key_seed(*k)), hex(m), hex(s), hex(&keypair(*k, "x").public_key())));
+            }
+        }
+    });
     let table = Sx::L(log.iter().map(|(k, m, s)| Sx::L(vec![Sx::n(*k as i64), Sx::S(m.clone()), Sx::S(s.clone())])).collect());
     let case = Sx::L(vec![
         Sx::N(0),
@@ -192,6 +218,12 @@ pub fn run(tier: &str, seed: u64, em: &mut Emitter) {
         let (case, out) = sign_case(&obj, &steps);
         em.emit(if steps.len() == 1 { "sign-one" } else { "sign-sequence" }, case, out);
     }
+
+    ORACLE.with(|o| {
+        for line in o.borrow().iter() {
+            em.aux("ed25519.txt", line.clone());
+        }
+    });
 
     // ---- size boundary: verify_json is documented as not size-limited (requests may exceed a PDU) ----
     for sz in [65_534usize, 65_535, 65_536, 65_537, 100_000] {
